@@ -14,6 +14,8 @@ params:
                       rebuilds the registry of such events from a weakref callback) while another thread creates a
                       second executor (which registers its event); then the interpreter-exit hook fires: the second
                       executor's worker must still be woken and exit
+            "exitadd": the exit hook walks the registry of several idle executors' events while another thread constructs
+                      one more executor
   pending   bool: a job is still running when the action happens (drop only: it must still complete)
   hist      list of history items for mode "refs" (ok | fail | cancel_queued | cancel_inflight | cancel_between |
             xcancel: somebody else cancels the attempt's delegate future while it is in flight)
@@ -231,5 +233,33 @@ def build(p):
         E.emit("Kept", a=len(created))
         E.emit("End")
 
-    mains = {"thread": main_thread_mode, "refs": main_refs_mode, "keep": main_keep_mode, "exitrace": main_exitrace_mode}
+    def main_exitadd_mode():
+        # several idle executors; the interpreter-exit hook walks the registry of their events while another thread is
+        # constructing one more executor (which registers its event): every worker must still be woken and exit
+        plan = {"_noretain": True}
+        kept = [make(k, ManualExecutor(plan, tag="tap"), None) for k in (kind, p.get("kind2", kind), kind)]
+
+        def creator():
+            E.vsleep(1000)
+            kept.append(make(p.get("kind2", kind), ManualExecutor(plan, tag="tap"), None))
+
+        def exiter():
+            E.vsleep(1000)
+            E.emit("Action", s="exit")
+            from more_executors._impl.event import GLOBAL_HANDLER
+            try:
+                GLOBAL_HANDLER.on_exiting()
+            except E.SchedAbort:
+                raise
+            except BaseException as ex:       # (atexit would print and swallow it)
+                E.emit("ExitHookRaise", s=type(ex).__name__)
+
+        E.spawn("creator", creator)
+        E.spawn("exiter", exiter)
+        E.vsleep(21000)
+        E.emit("Kept", a=len(kept))
+        E.emit("End")
+
+    mains = {"thread": main_thread_mode, "refs": main_refs_mode, "keep": main_keep_mode, "exitrace": main_exitrace_mode,
+             "exitadd": main_exitadd_mode}
     return mains[mode], {"horizon": 10 ** 7, "max_steps": 60000}
